@@ -675,6 +675,32 @@ fn f29_trigger(l: &Lexed) -> bool {
     l.order.windows(2).any(|w| !w[0].0 && w[1].0 && l.toks[w[0].1].bytes == b"-")
 }
 
+/// Known finding F32, exactly: at `end` the comment is attached after `p` code tokens and what follows is
+/// (a) nothing but the final `;` of the file, or (b) the rest of the type of a type declaration that is the
+/// last statement (`type U = A | B`: a `type` name token opens it and no statement keyword follows).
+fn f32_shape(base: &Lexed, p: usize) -> bool {
+    let toks = &base.toks;
+    if p >= toks.len() {
+        return false;
+    }
+    let tail = &toks[p..];
+    if tail.len() == 1 && tail[0].bytes == b";" {
+        return true;
+    }
+    // (b) the last statement is a type declaration `type Name =` / `type Name <…> =` and the attach point lies
+    // inside its type (behind the name): the rest of the type is written behind the comment
+    let start = (0..p).rev().find(|&i| {
+        toks[i].bytes == b"type"
+            && toks.get(i + 1).map(|t| t.kind == "name").unwrap_or(false)
+            && toks.get(i + 2).map(|t| t.bytes == b"=" || t.bytes == b"<").unwrap_or(false)
+    });
+    if let Some(i) = start {
+        return p >= i + 3
+            && !toks[i + 1..].iter().any(|t| t.kind == "keyword" && !matches!(t.bytes.as_slice(), b"nil" | b"true" | b"false"));
+    }
+    false
+}
+
 /// The separators between consecutive items of `out` (items as the reference lexer found them):
 /// Some(description) when one of them cannot have been written by the generator alone.
 fn leftover_whitespace(out: &str, l: &Lexed) -> Option<String> {
@@ -883,8 +909,10 @@ fn judge(ctx: &mut Ctx, case: &Case, witness_mode: bool) -> Outcome {
                     // F32: the comment is attached to the last *statement* token; block-level tokens written
                     // after it (the final `;`, the rest of a union type) are pushed down by the comment.
                     // Excused only there: every token before the attach point must keep its line.
+                    // The excuse has exactly the shape F32 names (`f32_shape`): the tokens behind the attach point
+                    // are the final `;` alone, or the `| B` / `& B` tail of a type declaration.
                     let (rl, bl) = (lo.lines(), lbase.lines());
-                    let tail_only = real_pos.map(|p| p < bl.len() && rl.len() == bl.len() && rl[..p] == bl[..p]).unwrap_or(false);
+                    let tail_only = real_pos.map(|p| p < bl.len() && rl.len() == bl.len() && rl[..p] == bl[..p] && f32_shape(&lbase, p)).unwrap_or(false);
                     if tail_only && !witness_mode {
                         o.count("F32_tokens_behind_the_attached_comment_move");
                         continue;
@@ -923,7 +951,14 @@ fn judge(ctx: &mut Ctx, case: &Case, witness_mode: bool) -> Outcome {
                         }
                     }
                 }
-                if fixed_file && !same_attach {
+                // on every source: where the AST's notion of first / last token is known to differ from the
+                // file's (an attribute before `function` at `start`: F28, withdrawn; the F32 shapes at `end`)
+                // the position is not compared; anywhere else a different attach point is a break
+                let known_other_attach = match loc {
+                    Loc::Start => lbase.toks.first().map(|t| t.bytes == b"@").unwrap_or(false),
+                    Loc::End => real_pos.map(|p| f32_shape(&lbase, p)).unwrap_or(false),
+                };
+                if !same_attach && (fixed_file || !known_other_attach) {
                     corr_fail = Some((
                         "attach_position".to_owned(),
                         format!("comment found after {:?} code tokens, the model attaches it after {}", real_pos, model_pos),
@@ -1254,6 +1289,11 @@ fn append_files() -> Vec<&'static str> {
         "do end --",
         "f ( ) ;",
         "return 1 , 2",
+        // files ending in an if-expression (the last token is the last token of the ELSE result)
+        "local x = if a then b else c",
+        "return if a then b elseif c then d else e",
+        "x = 1 + if a then b else - c",
+        "local y = if a then b else if c then d else { e }\n",
     ]
 }
 
@@ -2120,7 +2160,7 @@ pub fn run(report: &mut Report, replay: Option<&str>) {
     let thorough = report.is_thorough();
     let mut rng = Rng::new(report.seed);
     report.rule = "append: every text over {[ ] = - a LF CR SP} up to length 4 (+ the property's list) x {start,end} x {empty file, print(1)LF}; \
-                   up to length 3 (thorough: 4) on 15 files (ending with a line comment / without newline / comment-only …). \
+                   up to length 3 (thorough: 4) on 19 files (ending with a line comment / without newline / comment-only …). \
                    remove: generated Luau programs (31 statement templates, comment in every gap or random gaps, LF and CRLF) x \
                    {remove_spaces, remove_comments, except literal sets, except regex sets}. \
                    Non-trivial = append with a non-empty text, or a remove case whose source has at least one comment; keys are (config, source)."
